@@ -1631,6 +1631,8 @@ class Interp:
                 pairs = self._symseq_comp(ast.ListComp(elt=ast.Tuple(elts=[n.key, n.value], ctx=ast.Load()), generators=n.generators), fr, "list")
                 if pairs is None:
                     return None
+                if isinstance(pairs, list):
+                    return {self.hashable(k): v for k, v in pairs}
                 self._fresh_n += 1
                 return SymMap(self, f"map!{self._fresh_n}", pairs.length, lambda i: pairs.elem(i)[0], lambda i: pairs.elem(i)[1])
             if kind != "list":
